@@ -34,8 +34,8 @@ M = [
      "\tif poolCount >= q.bufferSizeMaximum {",
      "\tif poolCount > q.bufferSizeMaximum {"),
     ("C07", "loader-without-lock", "queue.go",
-     "\t\tq.lock.Lock()\n\t\t// Close() could have closed the channels while waiting for the lock\n\t\tif q.isClosed.Get() {\n\t\t\tq.lock.Unlock()\n\t\t\tbreak\n\t\t}",
-     "\t\tif q.isClosed.Get() {\n\t\t\tbreak\n\t\t}\n\t\tq.lock.RLock()\n\t\tq.lock.RUnlock()\n\t\tq.lock.Lock()\n\t\tq.lock.Unlock()\n\t\tdefer func() { recover() }()\n\t\tq.lock.Lock()"),
+     "\t\tq.lock.Lock()\n\t\t// Close() could have closed the channels while waiting for the lock\n\t\tif q.isClosed.Get() {\n\t\t\tq.lock.Unlock()\n\t\t\tbreak\n\t\t}\n",
+     ""),  # plus: the matching Unlock is removed below (the first version of this mutant still held the lock: equivalent)
     ("C07", "poll-without-wakeup", "queue.go",
      "\tq.notifyWorkers()\n\n\treturn q.blockingQueue.Poll()",
      "\treturn q.blockingQueue.Poll()"),
@@ -109,9 +109,11 @@ M = [
     ("C15", "offer-without-closed-recheck", "queue.go",
      "\tq.lock.Lock()\n\tdefer q.lock.Unlock()\n\n\tif q.isClosed.Get() {\n\t\treturn ErrQueueIsClosed\n\t}\n\n\tpoolCount",
      "\tif q.isClosed.Get() {\n\t\treturn ErrQueueIsClosed\n\t}\n\tq.lock.Lock()\n\tdefer q.lock.Unlock()\n\n\tpoolCount"),
-    ("C15", "close-before-flag", "queue.go",
-     "\tq.isClosed.Set(true)\n\tclose(q.loadWorkerCh)\n\tclose(q.blockingQueue)",
-     "\tclose(q.loadWorkerCh)\n\tclose(q.blockingQueue)\n\tq.isClosed.Set(true)"),
+    ("C15", "close-flag-after-unlock", "queue.go",
+     "\tq.lock.Lock()\n\tdefer q.lock.Unlock()\n\n\tq.isClosed.Set(true)\n\tclose(q.loadWorkerCh)\n\tclose(q.blockingQueue)\n}",
+     "\tq.lock.Lock()\n\tclose(q.loadWorkerCh)\n\tclose(q.blockingQueue)\n\tq.lock.Unlock()\n\tq.isClosed.Set(true)\n}"),
+    # (replaces "close-before-flag", which only reordered the three statements INSIDE the critical section:
+    #  every reader checks the flag under the same lock, so that mutant was equivalent and rightly went unnoticed)
     ("C15", "notify-check-outside-lock", "queue.go",
      "\tq.lock.RLock()\n\tdefer q.lock.RUnlock()\n\tif q.isClosed.Get() {\n\t\treturn\n\t}\n\n\tq.loadWorkerCh.Offer(1)",
      "\tif q.isClosed.Get() {\n\t\treturn\n\t}\n\n\tq.loadWorkerCh.Offer(1)"),
@@ -187,6 +189,8 @@ def main():
             bad += 1
             continue
         txt = src.replace(old, new)
+        if prop == "C07" and name == "loader-without-lock":
+            txt = txt.replace("\t\t}\n\t\tq.lock.Unlock()\n\n\t\ttime.Sleep(q.loadFromPoolDuration)", "\t\t}\n\n\t\ttime.Sleep(q.loadFromPoolDuration)")
         if prop == "C20" and name == "call-without-mutex":
             txt = txt.replace("\tcurrySelf.callM.Unlock()\n\treturn currySelf", "\treturn currySelf")
         open(path, "w").write(txt)
